@@ -425,6 +425,8 @@ class MethodTranslator:
             return self.alloc(v.term).term
         if (v.kind, want) == ('I', 'R'):
             return '(E.rofInt %s)' % v.term
+        if v.kind in ('T', 'B') and want == 'I' and 'toInt' in self.cm.ops:
+            return '(E.toInt %s)' % self.val(v).term           # a 0-d tensor used as a Python int
         raise self.err('%s: a %s where a %s is expected' % (what, v.kind, want), node)
 
     # ------------------------------------------------------------------ expressions
@@ -652,6 +654,8 @@ class MethodTranslator:
                     return V(self.val(base).term, 'T')            # a copy nobody else holds
                 key = '.' + f.attr
                 if key in self.cm.calls:
+                    if callable(self.cm.calls[key]):
+                        return self.cm.calls[key](self, n, base)
                     return self.op_call(self.cm.calls[key], n, base)
         raise self.err('call %s' % ast.unparse(n), n)
 
@@ -1061,7 +1065,8 @@ class MethodTranslator:
 
     def skip_call(self, c):
         src = ast.unparse(c.func)
-        return src.startswith('logging.') or src in ('print', 'torch.no_grad', 'torch.cuda.empty_cache', 'torch.random.seed', 'torch.manual_seed')
+        return src.startswith('logging.') or src in ('print', 'torch.no_grad', 'torch.cuda.empty_cache', 'torch.random.seed', 'torch.manual_seed') \
+            or src in self.cm.spec.get('skip_calls', ())
 
     def only_logging(self, stmts):
         return all(isinstance(s, ast.Expr) and isinstance(s.value, ast.Call) and self.skip_call(s.value) for s in stmts)
